@@ -920,11 +920,11 @@ class ExcelCompiler:
 
                     # fetch the value for this cell, if it exists
                     ref_addr = value.address
-                    if ref_addr not in self.cell_map and getattr(self, 'excel', None):
-                        # INDIRECT() can produce addresses we don't already have loaded
-                        self._gen_graph(ref_addr)
-
                     try:
+                        if ref_addr not in self.cell_map and getattr(self, 'excel', None):
+                            # INDIRECT() can produce addresses we don't already have loaded
+                            self._gen_graph(ref_addr)
+
                         value = self._evaluate(ref_addr)
                     except BaseException:
                         if self.cycles:
